@@ -203,12 +203,13 @@ public:
       const Scalar wz  = a_in.z();
       const Scalar wz2 = wz * wz;
 
-      if (wz2 < Scalar(eps2)) {
+      if (wz2 < Scalar(detail::tail_switch<Scalar>(5))) {
+        const Scalar wz4 = wz2 * wz2;
         return {
-          Scalar(0.5) - wz2 / 24,
-          Scalar(1. / 6) - wz2 / 120,
-          -wz / 12,
-          -wz / 60,
+          Scalar(1) / 2 - wz2 / 24 + wz4 / 720,
+          Scalar(1) / 6 - wz2 / 120 + wz4 / 5040,
+          wz * (-Scalar(1) / 12 + wz2 / 180 - wz4 / 6720),
+          wz * (-Scalar(1) / 60 + wz2 / 1260 - wz4 / 60480),
         };
       } else {
         const Scalar sTh = sin(wz);
@@ -249,10 +250,11 @@ public:
       const Scalar wz  = a_in.z();
       const Scalar wz2 = wz * wz;
 
-      if (wz2 < Scalar(eps2)) {
+      if (wz2 < Scalar(detail::tail_switch<Scalar>(4))) {
+        const Scalar wz4 = wz2 * wz2;
         return {
-          Scalar(1) / Scalar(12) + wz2 / Scalar(720),
-          Scalar(1) / Scalar(360),
+          Scalar(1) / Scalar(12) + wz2 / Scalar(720) + wz4 / Scalar(30240),
+          wz * (Scalar(1) / Scalar(360) + wz2 / Scalar(7560) + wz4 / Scalar(201600)),
         };
       } else {
         const Scalar sTh = sin(wz);
